@@ -220,7 +220,7 @@ class Table:
         r = dict(kind=k, ptype="o", visible=True, visibleF=False, isBound=False, deferred=False, extUrl=False,
                  graph=True, uses=[], anc=None, comps=[], calls=[], bindings=[], modprocs=[], impl=None,
                  deps=[], boundprocs=[], internals=[], maxDepth=0, maxNodes=1, name=self.ident(obj),
-                 cls=self.class_index(obj))
+                 cls=self.class_index(obj), compnames=[])
         if k == "x":
             return r
         if Table._kind_of_class.get(r["cls"]) != self.KIND_CODE.get(k):
@@ -255,6 +255,7 @@ class Table:
                 if proto == "*":
                     continue
                 r["comps"].append(self.eid(proto))
+                r["compnames"].append(var.name)
             r["boundprocs"] = [self.eid(b) for b in getattr(obj, "boundprocs", [])]
         if k == "t" and r["extUrl"]:
             r["boundprocs"] = [self.eid(b) for b in getattr(obj, "boundprocs", [])]
@@ -1775,6 +1776,203 @@ def micro_callnodes(ford, drv, rng, n, rep):
 
 
 # --------------------------------------------------------------------------
+# labels of composition edges (round 6): `comp_types` / `comp_of` of the real type nodes and the labels in
+# the DOT source, against `compLoop` / `compOfLoop` / `edgeLabel` of the model (driver `c13.complabels`)
+# --------------------------------------------------------------------------
+
+
+def observe_labels(gm, tab: Table) -> dict:
+    """eid of a type -> {"types": [(eid of component type, label)] in dict order,
+                         "of": [(eid of component type, label stored on that node for this type)]}
+    (`of` only for component types that are entities of the project: a type known by name only gets one node
+    object per occurrence and has no "inherited by" graph)"""
+    out = {}
+    nm = lambda n: tab.ids.get(n.ident, n.ident)  # noqa
+    for node in gm.data.types.values():
+        if getattr(node, "fromstr", False):
+            continue
+        out[nm(node)] = {
+            "types": [(nm(t), lb) for t, lb in node.comp_types.items()],
+            "of": [(nm(t), t.comp_of.get(node)) for t in node.comp_types if not getattr(t, "fromstr", False)],
+        }
+    return out
+
+
+def label_requests(tab: Table) -> list:
+    return [(a, ["c13.complabels", ",".join(map(str, r["comps"]))])
+            for a, r in enumerate(tab.rows) if r["kind"] == "t" and not r["extUrl"] and r["comps"]]
+
+
+def parse_labels(field: str, names: list) -> list:
+    out = []
+    for x in field.split(","):
+        if x:
+            k, l = x.split(":")
+            out.append((int(k), ", ".join(names[int(i)] for i in l.split("."))))
+    return out
+
+
+def compare_labels(tab: Table, label_obs: dict, obs: dict, reqs: list, resps: list) -> list[str]:
+    diffs, model, asked = [], {}, set()
+    for (a, _), resp in zip(reqs, resps):
+        asked.add(a)
+        name, names = tab.rows[a]["name"], tab.rows[a]["compnames"]
+        if not resp or resp[0] != "ok":
+            diffs.append(f"labels of {name}: model answered {resp}")
+            continue
+        mt = parse_labels(resp[1] if len(resp) > 1 else "", names)
+        mo = [(t, lb) for t, lb in parse_labels(resp[2] if len(resp) > 2 else "", names) if tab.rows[t]["kind"] != "x"]
+        if a not in label_obs:
+            continue        # no node object was made for this type (`graph: false` and nothing depends on it)
+        it = label_obs[a]
+        if mt != it["types"]:
+            diffs.append(f"comp_types of {name} (component type, names of the components): model {mt} impl {it['types']}")
+        if mo != it["of"]:
+            diffs.append(f"comp_of entries for {name} on its component types: model {mo} impl {it['of']}")
+        for t, lb in mt:
+            model[(a, t)] = lb
+    for a, it in label_obs.items():
+        if a not in asked and (it["types"] or it["of"]):
+            diffs.append(f"comp_types of {tab.rows[a]['name'] if isinstance(a, int) else a}: the entity has no "
+                         f"component of derived type, impl {it['types']}")
+    for label, o in obs.items():
+        cls = label.rsplit(":", 1)[1]
+        got = sorted(((tab.ids.get(t, t), tab.ids.get(h, h), lb) for t, h, lb in o["edge_labels"]), key=repr)
+        if cls in ("type", "inherits", "inheritedby"):
+            want = sorted(((t, h, model.get((t, h))) for t, h, st in o["edges"] if st == "d"), key=repr)
+        else:
+            want = []
+        if want != got:
+            diffs.append(f"{label}: labels of the edges in the DOT source {got}, model {want}")
+    return diffs
+
+
+def micro_labels(ford, drv, rng, n, rep):
+    """the real `TypeNode.__init__` (real `GraphData`) on stub types with random component lists - several
+    components of the same type, of the type itself, of types known by name only, unlimited polymorphic ones,
+    components that are no derived types - and the real "inherits" / "inherited by" graphs over them: the dicts
+    `comp_types` / `comp_of` (order and labels) and the labels in the DOT source must be what the model says"""
+    import types as pytypes
+
+    import graphviz
+    import ford.graphs as G
+    import ford.sourceform as sf
+    from translate import c13 as T
+
+    probe = T._CtorProbe(ford)
+    real_pipe = graphviz.Digraph.pipe
+    graphviz.Digraph.pipe = lambda self, *a, **k: b'<svg width="10pt" height="10pt"></svg>'
+    reqs, cases = [], []
+    hist = {"same-type-twice": 0, "self-component": 0, "named-only": 0, "extends-and-contains": 0, "no-component": 0}
+    try:
+        for _ in range(n):
+            meta = pytypes.SimpleNamespace(graph_maxdepth=3, graph_maxnodes=100, graph=True)
+            k = rng.randint(1, 4)
+            targets = [probe.stub(sf.FortranType, meta=meta) for _ in range(k)]
+            named = [f"xt{i}" for i in range(2)]
+            variables, comps, names = [], [], []
+            self_ref = rng.random() < 0.2
+            for i in range(rng.choice([0, 1, 2, 3, 4, 5, 6, 8])):
+                vt = rng.choice(["type", "type", "class", "class", "integer", "real"])
+                x = rng.random()
+                if x < 0.1:
+                    proto, tid = "*", None
+                elif x < 0.2:
+                    j = rng.randrange(len(named))
+                    proto, tid = named[j], k + 1 + j
+                elif x < 0.3 and self_ref:
+                    proto, tid = "self", k
+                else:
+                    j = rng.randrange(k)
+                    proto, tid = targets[j], j
+                name = f"c{rng.randrange(5)}" if rng.random() < 0.2 else f"v{i}"   # names may repeat: labels are text
+                variables.append((vt, name, proto))
+                if vt in ("type", "class") and proto != "*":
+                    comps.append(tid)
+                    names.append(name)
+            ext = rng.choice([None, None] + list(range(k)))
+            obj = probe.stub(sf.FortranType, meta=meta, extends=None if ext is None else targets[ext])
+            obj.local_variables = [pytypes.SimpleNamespace(vartype=vt, name=nm_, proto=[obj if pr == "self" else pr])
+                                   for vt, nm_, pr in variables]
+            ents = targets + [obj]
+            gd = G.GraphData("..", False, False)
+            node = gd.get_node(obj)
+
+            def idx(nd_):
+                for i, e in enumerate(ents):
+                    if nd_.ident == f"stub~{e.ident}":
+                        return i
+                return k + 1 + named.index(nd_.ident)
+
+            it = [(idx(t), lb) for t, lb in node.comp_types.items()]
+            io = [(idx(t), t.comp_of.get(node)) for t in node.comp_types if not t.fromstr]
+            dot = {}
+            g = G.InheritsGraph(obj, gd)
+            dot["inherits"] = sorted(((idx_s(t, ents, named, k), idx_s(h, ents, named, k), st[0], lb)
+                                      for t, h, st, lb in parse_dot(g.dot.source)[1]), key=repr)
+            by = {}
+            for j in sorted({c for c in comps if c < k}):
+                gb = G.InheritedByGraph(targets[j], gd)
+                by[j] = sorted(((idx_s(t, ents, named, k), idx_s(h, ents, named, k), st[0], lb)
+                                for t, h, st, lb in parse_dot(gb.dot.source)[1]), key=repr)
+            if len(set(comps)) < len(comps):
+                hist["same-type-twice"] += 1
+            if k in comps:
+                hist["self-component"] += 1
+            if any(c > k for c in comps):
+                hist["named-only"] += 1
+            if ext is not None and ext in comps:
+                hist["extends-and-contains"] += 1
+            if not comps:
+                hist["no-component"] += 1
+            reqs.append(["c13.complabels", ",".join(map(str, comps))])
+            cases.append(dict(components=[(vt, nm_, pr if isinstance(pr, str) else f"t{targets.index(pr)}")
+                                          for vt, nm_, pr in variables],
+                              extends=ext, comps=comps, names=names, k=k, impl_types=it, impl_of=io, dot=dot, by=by))
+    finally:
+        graphviz.Digraph.pipe = real_pipe
+    bad = 0
+    for c, resp in zip(cases, drv.batch(reqs)):
+        k, names, comps = c["k"], c["names"], c["comps"]
+        mt = parse_labels(resp[1] if len(resp) > 1 else "", names)
+        mo = [(t, lb) for t, lb in parse_labels(resp[2] if len(resp) > 2 else "", names) if t <= k]
+        lab = dict(mt)
+        # edges of the "inherits" graph of the new type, from the model's relation: one dashed edge per key of the
+        # dict with its label, the solid extension edge without (second hops: the targets have no relations)
+        want = sorted([(k, t, "d", lb) for t, lb in mt] + ([(k, c["extends"], "s", None)] if c["extends"] is not None else []),
+                      key=repr)
+        # self-component: the second hop expands the type again only if it was not yet drawn - it is the root
+        why = None
+        if resp[0] != "ok":
+            why = f"model answered {resp}"
+        elif mt != c["impl_types"]:
+            why = f"comp_types: model {mt} impl {c['impl_types']}"
+        elif mo != c["impl_of"]:
+            why = f"comp_of: model {mo} impl {c['impl_of']}"
+        elif want != c["dot"]["inherits"]:
+            why = f"edges (tail, head, style, label) of the inherits graph: model {want} impl {c['dot']['inherits']}"
+        else:
+            for j, edges in c["by"].items():
+                wantb = sorted([(k, j, "d", lab[j])] + ([(k, j, "s", None)] if c["extends"] == j else []), key=repr)
+                if k in comps:      # the new type contains itself: its own inherited-by hop is drawn below it
+                    wantb = sorted(set(wantb + [(k, k, "d", lab[k])]), key=repr)
+                if wantb != edges:
+                    why = f"edges of the inherited-by graph of t{j}: model {wantb} impl {edges}"
+                    break
+        if why:
+            bad += 1
+            rep.tie_broken("correspondence micro/composition labels: " + why, dict(c, stream="micro-labels", model=resp))
+    return len(reqs), bad, hist
+
+
+def idx_s(ident: str, ents, named, k):
+    for i, e in enumerate(ents):
+        if ident == f"stub~{e.ident}":
+            return i
+    return k + 1 + named.index(ident)
+
+
+# --------------------------------------------------------------------------
 # fixed witnesses of the known findings (met on every run)
 # --------------------------------------------------------------------------
 
@@ -1868,13 +2066,25 @@ def run_case(ford, drv, d: Path, A: Abs | None, files: dict, opts: dict):
     node_obs = observe_nodes(gm, tab)
     out["request"] = model_request(tab, oids)
 
+    label_obs = observe_labels(gm, tab)
+    out["label_reqs"] = label_requests(tab)
+    out["stats"]["labelled-types"] = len(out["label_reqs"])
+    out["stats"]["labels-naming-several"] = sum(1 for it in label_obs.values() for _, lb in it["types"] if ", " in lb)
+
     def settle(resp, out=out, tab=tab, node_obs=node_obs, obs=obs):
         out["corr"] = compare(tab, node_obs, obs, resp)
         out.pop("settle", None)
+
+    def settle_labels(resps, out=out, tab=tab, label_obs=label_obs, obs=obs):
+        # (after `settle`: the differences are appended)
+        out["corr"] = out["corr"] + compare_labels(tab, label_obs, obs, out["label_reqs"], resps)
+        out.pop("settle_labels", None)
     if drv is not None:
         settle(drv.call(*out["request"]))
+        settle_labels(drv.batch([rq for _, rq in out["label_reqs"]]) if out["label_reqs"] else [])
     else:
         out["settle"] = settle
+        out["settle_labels"] = settle_labels
     st = out["stats"]
     for label, o in obs.items():
         cls = label.rsplit(":", 1)[1]
@@ -1929,7 +2139,7 @@ def run(tier: str, seed: int, replay: str | None = None) -> int:
     stats: dict[str, int] = {}
     distinct = set()
     samples = []
-    n_graphs = n_corr_bad = n_oracle = n_err = 0
+    n_graphs = n_corr_bad = n_oracle = n_err = n_label_cmp = 0
     cases = []
     if replay:
         r = json.loads(Path(replay).read_text())
@@ -1955,6 +2165,10 @@ def run(tier: str, seed: int, replay: str | None = None) -> int:
             cases.append((A, render(A), A.opts, "proj"))
     try:
         ev_micro, bad_micro = micro_callnodes(ford, drv, rng, n_micro, rep)
+        # (a stream of its own: the projects and call lists of the earlier rounds stay what they were)
+        ev_lab, bad_lab, hist_lab = micro_labels(ford, drv, random.Random(seed * 7919 + 6007),
+                                                 1500 if tier == "quick" else 15000, rep)
+        ev_micro, bad_micro = ev_micro + ev_lab, bad_micro + bad_lab
         with common.scratch_dir() as d:
             graphviz.Digraph.pipe = fake_pipe
             variants = decide_variant(ford, d / "v")
@@ -1971,6 +2185,15 @@ def run(tier: str, seed: int, replay: str | None = None) -> int:
                 pending = [res for _, res in results if "settle" in res]
                 for res, resp in zip(pending, drv.batch([res["request"] for res in pending])):
                     res["settle"](resp)
+                # the labels of the composition edges: one request per type with components, one run of the driver
+                lab = [res for _, res in results if "settle_labels" in res]
+                flat = [rq for res in lab for _, rq in res["label_reqs"]]
+                resps, pos = (drv.batch(flat) if flat else []), 0
+                for res in lab:
+                    nreq = len(res["label_reqs"])
+                    res["settle_labels"](resps[pos:pos + nreq])
+                    pos += nreq
+                    n_label_cmp += nreq
                 for k, res in results:
                     A, files, opts, stream = cases[k]
                     case = {"stream": stream, "index": k, "files": files, "opts": opts,
@@ -2017,11 +2240,14 @@ def run(tier: str, seed: int, replay: str | None = None) -> int:
         build_errors=n_err,
         project_feature_histogram=dict(sorted(feats.items())),
         graph_histogram=dict(sorted(stats.items())),
+        composition_labels={"micro_cases": ev_lab, "micro_histogram": hist_lab,
+                            "type_nodes_of_projects_compared": n_label_cmp},
     )
     rep.assumptions += [
         "Fortran parsing / correlate (C01, C06-C08) are on the implementation side: the model starts from the entity "
         "attributes the node constructors read (uses, calls, bindings, extends, component prototypes, deplist, meta)",
-        "iteration order inside a hop, colours, labels, URLs, SVG layout and the HTML table fallback are not compared",
+        "iteration order inside a hop, colours, node labels, URLs and SVG layout are not compared (labels of composition "
+        "edges and the HTML table fallback are)",
         "interface bodies written inside a generic interface block have no page of their own and are not expected as "
         "nodes; a specific procedure that is hidden (private, display without private) is expected to have no edge",
         "graph_maxdepth: 0 is read as one hop (the code always expands the roots once)",
